@@ -8,10 +8,10 @@ PROP = dict(
               "slice.indices; exhaustive (destination slice, source slice) pairs and the closure over all array contents on "
               "one array, every transition executed on the real array and compared with a copy-first model; second pass under ASan+UBSan",
     claim="every (n, i1, i2, step) of the box of the property (n<=10, i1,i2 in [-n-3,n+3], step in [-5,5], real/complex, const/mutable, "
-          "end placeholder), every right-hand-side kind and length relation, and every ordered pair of equal-count slices on one array "
-          "(n<=8 thorough, all in-range index spellings, steps up to +-n) is executed on the implementation and compared element by "
-          "element (bit patterns) with Python's selection; for n<=5 additionally every array content reachable by sequences of such "
-          "assignments. Exhaustive within the bounds, silent outside them (large n only on a 13x13x16 lattice for n=1000, 100000).",
+          "end placeholder; thorough n<=32, steps -8..8), every right-hand-side kind and length relation, and every ordered pair of equal-count slices on one array "
+          "(n<=10 thorough, all in-range index spellings, steps up to +-n) is executed on the implementation and compared element by "
+          "element (bit patterns) with Python's selection; for n<=6 additionally every array content reachable by sequences of such "
+          "assignments. Exhaustive within the bounds, silent outside them (large n only on a 13x13x20 lattice for n=1000, 5000, 200000 in both tiers, 100000 thorough).",
     note="trusts the 20-line transcription of PySlice_AdjustIndices (cross-checked once against python3 over the whole box) and, in the "
          "rel pass, the 8 guard elements behind the data for seeing stray writes (writes before the data are only seen by the asan pass)",
     mc_note="states = distinct configurations (element type, source kind, n, destination slice spelling, source slice spelling, array "
@@ -24,13 +24,15 @@ PROP = dict(
          "non-trivial = the expected selection has >= 2 elements or the statement lists the situation as throwing, resp. a "
          "right-hand side of unequal count",
     bounds=dict(
-        quick="reads: whole box n<=10 x {real,cmplx} x {const,mutable} + end forms; scalar/array/list right-hand sides for every valid "
+        quick="reads: whole box n<=10, i1,i2 in [-n-3,n+3], step -5..5 x {real,cmplx} x {const,mutable} + end forms; scalar/array/list right-hand sides for every valid "
               "destination n<=10 (lengths 0..count+2); slices of another array: destination n<=8 x all valid source tuples n2<=4, mutable and "
-              "const; same-array pairs n<=6, closure n<=4; lattice n in {1000,100000}. asan pass: lists n<=8, other-array n<=6 x n2<=3, pairs n<=5, "
-              "closure n<=3, lattice n=1000",
-        thorough="as quick with other-array destination n<=10 x n2<=6, same-array pairs n<=8 (steps -8..8, all in-range spellings), closure n<=5. "
-                 "asan pass: other-array n<=10 x n2<=4, pairs n<=8, closure n<=4, lattice n in {1000,100000}"),
-    deadline=dict(quick=150, thorough=1200),
+              "const; same-array pairs n<=6, closure n<=4; BIG arrays (both passes): lattice i1,i2 in {0,+-1,+-2,+-n/2,+-(n-1),+-n,+-(n+1)} x step +-{1,2,3,7,n/2,n-1,n,n+1,...} on "
+              "n=1000, n=5000 (>4096) and n=200000 (>65536; extra steps +-65537, +-70000; counts 200000, 100000, 66667 exceed 65536) with read, scalar/array/slice "
+              "assignment and same-array shifted / reversed strided assignment. asan pass: lists n<=6, other-array n<=6 x n2<=3, pairs n<=5, closure n<=3, same BIG lattice",
+        thorough="reads: n<=32 (asan pass 16), i1,i2 in [-n-3,n+3], step -8..8 (4.3M tuples); scalar/array right-hand sides n<=16 (asan 12), lists n<=10; other-array "
+                 "destination n<=12 x n2<=7 (asan 10 x 4); same-array pairs n<=10 (steps -n..n, all in-range spellings; asan n<=8); closure over all reachable contents n<=6 "
+                 "(5.1G transitions; asan n<=5); BIG lattice additionally n=100000"),
+    deadline=dict(quick=150, thorough=3000),
     # symbolize=0: a sanitizer report of a forked child costs ~6 ms instead of ~120 ms (the report text still names the error kind)
     passes=[dict(name="main"),
             dict(name="asan", variant="asan", args=["--asan-pass"],
@@ -39,7 +41,7 @@ PROP = dict(
         "where the statement lists a situation as 'throws' both an exception and Python's selection are accepted",
         "after a rejected (unequal count) assignment only the elements outside the designated positions are required to be unchanged",
         "x.slice(0,n) = x (the array object itself as source) may throw or be a no-op",
-        "indexing::end stands for i2 = n; random triples for n up to 1e5 are replaced by a fixed 13 x 13 x 16 lattice of boundary values",
+        "indexing::end stands for i2 = n; random triples for n up to 1e5 are replaced by a fixed 13 x 13 x 20 lattice of boundary values on n = 1000, 5000, 200000 (100000)",
         "a slice is read through size(), begin()/end() iteration, operator*, array construction and assignment to an array",
         "a sanitizer report / fatal signal in the harness process is recorded as a violation of the case in progress and stops that shard (capped)",
     ],
